@@ -8,7 +8,7 @@ LEVEL = "proof"
 HARNESS = "c15"
 # the tensor reader is a header template instantiated in the harness: release semantics (Eigen's assertions off) in both
 # flavours — with assertions on, a negative dimension in a corrupted header aborts in Eigen's resize (see ASSUMPTIONS)
-HARNESS_FLAGS = "-DNDEBUG"
+HARNESS_FLAGS = "-DNDEBUG -g1"
 HARNESS_ENV = {"ASAN_OPTIONS": "detect_leaks=0:abort_on_error=0:allocator_may_return_null=1:max_allocation_size_mb=64"}
 HARNESS_TIMEOUT = 1500
 FLAVOUR = {"quick": "plain", "thorough": "asan"}
